@@ -212,6 +212,14 @@ func NewWork(base string) (string, error) {
 
 // ScratchBase picks the directory for scenario roots: tmpfs when there is one.
 func ScratchBase() string {
+	// scenario roots of runs that were killed before they could clean up (tmpfs is RAM)
+	if old, _ := filepath.Glob("/dev/shm/verif-cli-*"); len(old) > 0 {
+		for _, d := range old {
+			if st, err := os.Stat(d); err == nil && time.Since(st.ModTime()) > 2*time.Hour {
+				os.RemoveAll(d)
+			}
+		}
+	}
 	if st, err := os.Stat("/dev/shm"); err == nil && st.IsDir() {
 		if d, err := os.MkdirTemp("/dev/shm", "verif-cli-"); err == nil {
 			return d
